@@ -27,6 +27,11 @@ pub trait Oracle {
         false
     }
     fn owns_panic(&self, c: &Call) -> bool;
+    /// may the history go on after the alive set has diverged from the model? (then calls
+    /// are only made on vertices present on BOTH sides, and the oracle judges those)
+    fn tolerates_desync(&self) -> bool {
+        false
+    }
     fn check(&mut self, r: &mut Runner, s: &StepInfo, ob: Option<(&Obs, &Obs)>) -> Option<Failure>;
 }
 
@@ -114,7 +119,14 @@ pub struct C03 {
 }
 impl C03 {
     pub fn new() -> Self {
-        Self { probes: vec![Lab::Alpha(0), Lab::Alpha(99), Lab::Greek('x'), Lab::Greek('φ'), Lab::Str("foo".into()), Lab::Str("zz".into())] }
+        Self {
+            probes: vec![
+                Lab::Alpha(0), Lab::Alpha(99), Lab::Greek('x'), Lab::Greek('φ'), Lab::Str("foo".into()), Lab::Str("zz".into()),
+                // twins of pool labels under lossy comparisons
+                Lab::Str("ах".into()), Lab::Str("0E".into()), Lab::Greek('\u{10430}'), Lab::Greek('\u{0430}'), Lab::Greek('0'),
+                Lab::Str("Foo".into()), Lab::Str("FOO".into()), Lab::Alpha(1), Lab::Alpha(1 << 32), Lab::Alpha((1 << 32) + 1), Lab::Str("myx".into()), Lab::Str("my x".into()),
+            ],
+        }
     }
 }
 impl Default for C03 {
@@ -125,6 +137,9 @@ impl Default for C03 {
 impl Oracle for C03 {
     fn prop(&self) -> &'static str {
         "C03"
+    }
+    fn tolerates_desync(&self) -> bool {
+        true
     }
     fn owns_panic(&self, c: &Call) -> bool {
         matches!(c, Call::Kid(..) | Call::Kids(_))
@@ -203,6 +218,9 @@ pub struct C04;
 impl Oracle for C04 {
     fn prop(&self) -> &'static str {
         "C04"
+    }
+    fn tolerates_desync(&self) -> bool {
+        true
     }
     fn wants_obs(&self) -> bool {
         true
@@ -368,7 +386,7 @@ impl<'a> Driver<'a> {
 
     /// true = go on
     pub fn step(&mut self, call: &Call) -> bool {
-        if !self.r.valid(call) {
+        if !self.r.valid(call) || (self.r.desynced && !self.r.valid_on_impl(call)) {
             self.out.skipped_seeds += 1;
             return true;
         }
@@ -402,9 +420,12 @@ impl<'a> Driver<'a> {
             self.out.closed = Some("foreign_panic");
             return false;
         }
-        if s.desync || matches!(s.exp, Exp::Broken(_)) {
+        if matches!(s.exp, Exp::Broken(_)) || (s.desync && !self.oracle.tolerates_desync()) {
             self.out.closed = Some("desync_with_model");
             return false;
+        }
+        if s.desync {
+            self.out.events.insert("continued_past_desync");
         }
         if let Exp::Data(o) = &s.exp {
             if !o.removed.is_empty() && !self.r.m.alive().is_empty() {
